@@ -129,5 +129,23 @@ theorem unbounded_genuine {T : Tab K} {m n : Nat} (hC : Canon T m n) (hF : Feasi
       rw [div_lt_iff₀ hneg] at h1; exact h1
     nlinarith
 
+/-- a one-row tableau whose basic column is a unit column is canonical (used by the non-vacuity examples). -/
+theorem canon_of_one_row (T : Tab K) (r : List K) (b0 : K) (j : Nat) (ha : T.a = [r]) (hb : T.b = [b0])
+    (hj : T.basis = [j]) (hr : r.length = T.c.length) (hjn : j < T.c.length) (h1 : nth r j = 1)
+    (hc : nth T.c j = 0) : Canon T 1 T.c.length := by
+  refine ⟨⟨by simp [ha], by simp [hb], by simp [hj], rfl, ?_⟩, ?_, ?_, ?_⟩
+  · intro i hi; have : i = 0 := by omega
+    subst this; simp [ha, row, hr]
+  · intro i k hi hk
+    have hi' : i = 0 := by simp [ha] at hi; omega
+    have hk' : k = 0 := by simp [ha] at hk; omega
+    subst hi' hk'; simpa [ha, hj, row] using h1
+  · intro k hk
+    have hk' : k = 0 := by simp [ha] at hk; omega
+    subst hk'; simpa [hj] using hjn
+  · intro k hk
+    have hk' : k = 0 := by simp [ha] at hk; omega
+    subst hk'; simpa [hj] using hc
+
 end Unbounded
 end Rooc
